@@ -303,7 +303,7 @@ def cases(tier):
                         fixed = _fixed(block, menu, missing)
                         n = len(fixed)
                         syms = [[i] for i in range(n)]
-                        if tier == 'thorough' and block == 'carboxyl':
+                        if tier == 'thorough' and block == 'carboxyl' and menu == 0 and missing is None and not extra:
                             syms += [list(p) for p in itertools.combinations(range(n), 2)]
                         for sym in syms:
                             out.append({'fn': 'check_repair',
